@@ -291,9 +291,9 @@ def run_shard(spec, ctx):
     return rec
 
 
-N_GRAM_QUICK, N_GRAM_THOROUGH = 1200, 30000
-N_MUT_QUICK, N_MUT_THOROUGH = 1200, 30000
-ATHERIS_RUNS = 20000
+N_GRAM_QUICK, N_GRAM_THOROUGH = 1500, 30000
+N_MUT_QUICK, N_MUT_THOROUGH = 1500, 30000
+ATHERIS_RUNS = 12500
 
 
 def _atheris_stream(ctx, rec):
@@ -309,9 +309,11 @@ def _atheris_stream(ctx, rec):
 
 def floors(total, tier):
     lab = total.labels
-    need = {"compiled": 2000, "lex_error": 200, "parse_error": 1000, "compile_error": 20, "assertion_error": 20,
-            "via_gram": 1000, "via_mut": 1000, "via_enum": 100000, "via_seed": 1000}
+    need = {"compiled": 500000, "syntax_error": 50000, "lex_error": 1500, "parse_error": 3000, "compile_error": 200,
+            "assertion_error": 200, "via_gram": 8000, "via_mut": 8000, "via_enum": 500000, "via_seed": 2000}
     for e in srcgen.ENV_NAMES:
-        need[e] = 10000
+        need[e] = 70000
     low = ["%s=%d<%d" % (k, lab.get(k, 0), v) for k, v in need.items() if lab.get(k, 0) < v]
+    if tier != "quick" and "atheris" not in total.extra and total.extra.get("atheris_executions", 0) < 100000:
+        low.append("atheris_executions=%d<100000" % total.extra.get("atheris_executions", 0))
     return ", ".join(low) if low else None
